@@ -111,6 +111,15 @@ def _builtin(name, arity):
             return (len(args[0]) == 0,)
         if name == 'tail':
             return args[0][1:]
+        if name == 'boolean':
+            v = args[0]
+            if not v:
+                return (False,)
+            if len(v) == 1 and isinstance(v[0], bool):
+                return (v[0],)
+            if len(v) == 1 and isinstance(v[0], int):
+                return (v[0] != 0,)
+            raise ModelError('FORG0006', 'ebv')
         raise ModelError('XPST0017', name)
     return Fn(arity, impl, name)
 
@@ -123,7 +132,10 @@ def _ints(v):
 
 
 BUILTINS = {'abs': 1, 'count': 1, 'sum': 1, 'reverse': 1, 'remove': 2, 'index-of': 2, 'insert-before': 3,
-            'head': 1, 'tail': 1, 'exists': 1, 'empty': 1}
+            'head': 1, 'tail': 1, 'exists': 1, 'empty': 1, 'boolean': 1}
+
+
+HOFS = {'for-each': 2, 'filter': 2, 'fold-left': 3, 'fold-right': 3, 'for-each-pair': 3, 'sort': 3}
 
 
 def free_vars(ast, bound=frozenset()):
@@ -273,6 +285,54 @@ class Interp:
             if a[1] not in BUILTINS or BUILTINS[a[1]] != a[2]:
                 raise ModelError('XPST0017')
             return (_builtin(a[1], a[2]),)
+        if t == 'hof':      # named reference to a higher-order function: ['hof', name]
+            interp = self
+            name = a[1]
+
+            def himpl(args, name=name, env=dict(env)):
+                if name == 'for-each':
+                    f = one_fn(args[1])
+                    out = ()
+                    for item in args[0]:
+                        out += interp.call(f, [(item,)], env)
+                    return out
+                if name == 'filter':
+                    f = one_fn(args[1])
+                    out = ()
+                    for item in args[0]:
+                        r_ = interp.call(f, [(item,)], env)
+                        if len(r_) != 1 or not isinstance(r_[0], bool):
+                            raise ModelError('XPTY0004')
+                        if r_[0]:
+                            out += (item,)
+                    return out
+                if name == 'fold-left':
+                    f = one_fn(args[2])
+                    acc = args[1]
+                    for item in args[0]:
+                        acc = interp.call(f, [acc, (item,)], env)
+                    return acc
+                if name == 'fold-right':
+                    f = one_fn(args[2])
+                    acc = args[1]
+                    for item in reversed(args[0]):
+                        acc = interp.call(f, [(item,), acc], env)
+                    return acc
+                if name == 'for-each-pair':
+                    f = one_fn(args[2])
+                    out = ()
+                    for x, y in zip(args[0], args[1]):
+                        out += interp.call(f, [(x,), (y,)], env)
+                    return out
+                if name == 'sort':          # sort#3, the collation argument is the empty sequence
+                    f = one_fn(args[2])
+                    items = list(args[0])
+                    keys = [tuple(_ints(interp.call(f, [(x,)], env))) for x in items]
+                    order = sorted(range(len(items)), key=lambda i: keys[i])
+                    return tuple(items[i] for i in order)
+                raise ModelError('XPST0017', name)
+            self.flags.add('hof-reference')
+            return (Fn(HOFS[a[1]], himpl, 'hof-' + name),)
         if t == 'bi':       # direct call of a builtin: ['bi', name, arg...]; an arg ['?'] makes a partial application
             f = _builtin(a[1], len(a) - 2)
             args = [None if x[0] == '?' else self.ev(x, env) for x in a[2:]]
@@ -423,11 +483,13 @@ def render(a):
         return 'function(%s) { %s }' % (', '.join('$' + p for p in a[1]), r(a[2]))
     if t == 'named':
         return '%s#%d' % (a[1], a[2])
+    if t == 'hof':
+        return '%s#%d' % (a[1], HOFS[a[1]])
     if t == 'bi':
         return '%s(%s)' % (a[1], ', '.join('?' if x[0] == '?' else render_arg(x) for x in a[2:]))
     if t == 'call':
         f = r(a[1])
-        if a[1][0] in ('fn', 'named'):
+        if a[1][0] in ('fn', 'named', 'hof'):
             f = '(%s)' % f
         return '%s(%s)' % (f, ', '.join('?' if x[0] == '?' else r(x) for x in a[2]))
     if t in ('for-each', 'filter'):
@@ -601,11 +663,72 @@ class Gen:
             if vs and r.random() < 0.5:
                 return ['var', r.choice(vs)]
             return ['seq'] + [['int', r.randint(0, 5)] for _ in range(r.choice([0, 1, 2, 3, 3]))]
-        k = r.randrange(19)
-        if self.scope_only and k in (5, 6, 7, 8, 9, 10, 18):
+        k = r.randrange(22)
+        if self.scope_only and k in (5, 6, 7, 8, 9, 10, 18, 19, 20, 21):
             k = r.choice([2, 3, 4, 11, 12, 13, 14, 16, 17])
-        if k == 18 and self.no_partial:
+        if k in (18, 20) and self.no_partial:
             k = 2
+        if k == 19:
+            # a named reference to a higher-order function is bound first, the function item it is called with
+            # closes over a variable bound later (and the reference is used more than once)
+            self.features.add('hof-reference-late-closure')
+            h = r.choice(sorted(HOFS))
+            kname, hname = 'kk', 'hh'
+            e2 = dict(env)
+            e2[kname] = 'I'
+            s1, s2 = self.gen_S(env, 0), self.gen_S(env, 0)
+            if s1 == ['seq']:
+                s1 = ['seq', ['int', 3], ['int', 1], ['int', 2]]
+
+            def fun(op):
+                if h == 'filter':
+                    return ['fn', ['p'], ['lt', ['var', 'p'], ['var', kname]]]
+                if h in ('for-each', 'sort'):
+                    return ['fn', ['p'], [op, ['var', 'p'], ['var', kname]]]
+                if h == 'for-each-pair':
+                    return ['fn', ['p', 'q'], [op, ['add', ['var', 'p'], ['var', 'q']], ['var', kname]]]
+                if r.random() < 0.5:     # folds with a sequence accumulator
+                    acc, item = ('p', 'q') if h == 'fold-left' else ('q', 'p')
+                    return ['fn', ['p', 'q'], ['seq', ['var', acc], [op, ['var', item], ['var', kname]]]]
+                return ['fn', ['p', 'q'], [op, ['add', ['var', 'p'], ['var', 'q']], ['var', kname]]]
+
+            def use(seq, op):
+                if h in ('for-each', 'filter'):
+                    return ['call', ['var', hname], [seq, fun(op)]]
+                if h == 'sort':
+                    return ['call', ['var', hname], [seq, ['seq'], fun(op)]]
+                if h == 'for-each-pair':
+                    return ['call', ['var', hname], [seq, ['bi', 'reverse', seq], fun(op)]]
+                zero = r.choice([['int', 0], ['seq'], ['seq', ['int', 7], ['int', 8]]])
+                f = fun(op)
+                if f[2][0] != 'seq':
+                    zero = ['int', r.randint(0, 3)]
+                return ['call', ['var', hname], [seq, zero, f]]
+            uses = [use(s1, 'mul')] + ([use(s2, 'add')] if r.random() < 0.6 else [])
+            return ['let', hname, ['hof', h], ['let', kname, self.gen_I(env, 0), ['seq'] + uses]]
+        if k == 20:
+            # partial applications of built-in functions over sequences, filled with empty, single and longer sequences
+            self.features.add('builtin-seq-partial')
+            b = r.choice(['exists', 'empty', 'count', 'head', 'tail', 'reverse', 'sum', 'boolean'])
+            fills = [self.gen_S(env, 0), ['seq'], ['seq', ['int', r.randint(0, 5)]], self.gen_S(env, 0)]
+            if b == 'boolean':      # the effective boolean value is defined for at most one integer
+                fills = [['seq'], ['int', 0], self.gen_I(env, 0), ['seq', ['int', r.randint(0, 2)]]]
+            r.shuffle(fills)
+            calls = [['call', ['var', 'pp'], [x]] for x in fills[:r.choice([2, 3, 4])]]
+            if b in ('exists', 'empty', 'boolean'):
+                calls = [['if', c, ['int', 1], ['int', 0]] for c in calls]
+            return ['let', 'pp', ['bi', b, ['?']], ['seq'] + calls]
+        if k == 21:
+            # folds whose zero value and accumulator are sequences (also empty)
+            self.features.add('fold-sequence-accumulator')
+            h = r.choice(['fold-left', 'fold-right'])
+            acc, item = ('p', 'q') if h == 'fold-left' else ('q', 'p')
+            zero = r.choice([['seq'], ['seq'], ['seq', ['int', 7], ['int', 8]], ['int', 1], self.gen_S(env, 0)])
+            body = r.choice([['seq', ['var', acc], ['var', item]], ['seq', ['var', item], ['var', acc]],
+                             ['seq', ['var', acc], ['mul', ['var', item], ['int', 2]], ['var', item]],
+                             ['var', acc], ['bi', 'reverse', ['seq', ['var', acc], ['var', item]]]])
+            seq = r.choice([['seq'], self.gen_S(env, d - 1), self.gen_S(env, 0)])
+            return [h, seq, zero, ['fn', ['p', 'q'], body]]
         if k == 18:
             # a partial application of a built-in function applied partially again, the first one used afterwards
             self.features.add('builtin-partial-reused')
@@ -640,8 +763,9 @@ class Gen:
                         r.choice([['var', name], ['mul', ['var', name], ['int', 2]]])]
                 if name in names_in(loop[2]):
                     loop[2] = ['seq', ['int', 4], ['int', 5], ['int', 6]]
+                qn = [n for n in ('q', 'w', 'u', 'qq1') if n not in names_in(loop) and n not in env][0]
                 probe = r.choice([['bi', 'exists', loop], ['bi', 'empty', loop], ['eq', ['bi', 'head', loop], ['int', 4]],
-                                  ['some', 'q', loop, ['lt', ['int', 0], ['var', 'q']]]])
+                                  ['some', qn, loop, ['lt', ['int', 0], ['var', qn]]]])
                 return ['seq', ['if', probe, ['int', 1], ['int', 0]], ['var', name]]
             k = 3
         if k == 0:
